@@ -1,12 +1,121 @@
 (* C13 - Loading a document adds exactly its triples, whatever its size or prior content.
-   Only the property theorems; each is closed by `exact <lemma>` and followed by Print Assumptions. *)
-Require Import KV.Codec13.Model KV.Codec13.Spec KV.Codec13.Classes KV.Codec13.ChunkProofs.
+   Only the property theorems; each is closed by `exact <lemma>` and followed by Print Assumptions.
 
-(* Splitting the document into chunks of ANY size n >= 1, parsing each chunk on its own (one rayon task
-   per chunk) and concatenating the results in chunk order gives exactly the per-line parse of the
-   whole document: the chunk size, hence the number of tasks, cannot influence what is parsed. *)
+   Vocabulary (definitions, no proofs: Str.v Model.v Spec.v Wf.v Classes.v Inv.v Witness.v)
+     doc : list item            a document of the line-oriented subset as abstract syntax, one item per line
+     render_doc doc             its concrete text (list of lines)                         (Spec.v)
+     triples_of doc             the lexical quads the document says                        (Spec.v)
+     load_nt / load_nq / load_n3 / load_ttl   the model of the loaders                    (Model.v)
+     load_nt_n n                parse_ntriples_and_add with chunks of n lines (the code: n = 1000)
+     den x                      the lexical quad set of a database (decode_any over all quads)
+     db_ok x                    the dictionary invariant of the prior database + every stored id decodes
+     lq_of4 q                   a document quad as `den` reports it
+     known_C13_*                the decidable classes of the known findings              (Classes.v) *)
+Require Import KV.Codec13.Model KV.Codec13.Spec KV.Codec13.Wf KV.Codec13.Classes KV.Codec13.Inv KV.Codec13.Witness.
+Require Import KV.Codec13.ChunkProofs KV.Codec13.NtProofs KV.Codec13.RefuteProofs.
+
+(* (1) Splitting the document into chunks of ANY size n >= 1, parsing each chunk on its own (one rayon
+   task per chunk) and concatenating the results in chunk order gives exactly the per-line parse of
+   the whole document: chunk size, hence number of tasks and threads, cannot influence what is parsed
+   (given that the chunk results are collected in order, which is rayon's contract). *)
 Theorem C13_chunking :
   forall (n : nat) (lines : list str), (1 <= n)%nat ->
     flat_map parse_chunk_nt (chunks n lines) = flat_map nt_line lines.
 Proof. exact chunking_nt. Qed.
 Print Assumptions C13_chunking.
+
+(* (2) N-Triples.  For EVERY document of the subset (any number of lines, blank lines, comments, any
+   white space, IRIs, blank nodes, literals with every escape form, language tags, datatypes), EVERY
+   chunk size, and EVERY prior database that satisfies the dictionary invariant and has room for the
+   new identifiers: the loaded database satisfies the invariant again and denotes exactly the prior
+   quads plus the quads the document says - unless the document has a literal of the re-cleaning
+   class (finding C13-literal-recleaned). *)
+Theorem C13_ntriples :
+  forall (n : nat) (doc : list item) (x : db),
+    (1 <= n)%nat -> wf_doc_nt doc = true -> known_C13_reclean doc = false -> db_ok x ->
+    next_id (d_dict x) + 4 * N.of_nat (length (triples_of doc)) <= QBIT ->
+    db_ok (load_nt_n n (render_doc doc) x) /\
+    forall lq, In lq (den (load_nt_n n (render_doc doc) x)) <-> In lq (den x) \/ In lq (map lq_of4 (triples_of doc)).
+Proof. exact ntriples_main. Qed.
+Print Assumptions C13_ntriples.
+
+(* the code's own chunk size *)
+Theorem C13_ntriples_1000 :
+  forall (doc : list item) (x : db),
+    wf_doc_nt doc = true -> known_C13_reclean doc = false -> db_ok x ->
+    next_id (d_dict x) + 4 * N.of_nat (length (triples_of doc)) <= QBIT ->
+    db_ok (load_nt (render_doc doc) x) /\
+    forall lq, In lq (den (load_nt (render_doc doc) x)) <-> In lq (den x) \/ In lq (map lq_of4 (triples_of doc)).
+Proof. exact ntriples_1000. Qed.
+Print Assumptions C13_ntriples_1000.
+
+(* (3) N-Quads, with named graphs (IRIs or blank nodes) and default-graph statements mixed. *)
+Theorem C13_nquads :
+  forall (doc : list item) (x : db),
+    wf_doc_nq doc = true -> known_C13_reclean doc = false -> db_ok x ->
+    next_id (d_dict x) + 4 * N.of_nat (length (triples_of doc)) <= QBIT ->
+    db_ok (load_nq (render_doc doc) x) /\
+    forall lq, In lq (den (load_nq (render_doc doc) x)) <-> In lq (den x) \/ In lq (map lq_of4 (triples_of doc)).
+Proof. exact nquads_main. Qed.
+Print Assumptions C13_nquads.
+
+(* the re-cleaning class is a genuine violation: the literal " x" is loaded as "x" *)
+Theorem C13_reclean_refuted :
+  wf_doc_nt wc_doc = true /\ known_C13_reclean wc_doc = true /\
+  ~ (forall lq, In lq (den (load_nt (render_doc wc_doc) db_new)) <-> In lq (den db_new) \/ In lq (map lq_of4 (triples_of wc_doc))).
+Proof. exact reclean_refuted. Qed.
+Print Assumptions C13_reclean_refuted.
+
+(* (4) N3.  Both halves of known_C13_n3 are genuine violations of the full statement
+     forall doc x, den (load_n3 (render_doc doc) x) = den x U triples_of doc :
+   (a) one well-formed statement loaded into a database holding one triple adds nothing *)
+Theorem C13_n3_nonempty_dictionary_refuted :
+  wf_item_n3 (hd (IBlank []) wa_doc) = true /\ db_ok wa_db /\
+  known_C13_n3 wa_doc wa_db = true /\ multichunk (length wa_doc) = false /\
+  ~ (forall lq, In lq (den (load_n3 (render_doc wa_doc) wa_db)) <-> In lq (den wa_db) \/ In lq (map lq_of4 (triples_of wa_doc))).
+Proof. exact n3_nonempty_refuted. Qed.
+Print Assumptions C13_n3_nonempty_dictionary_refuted.
+
+(* (b) a 1500-line document with the @prefix on line 1, loaded into the EMPTY database: 999 quads *)
+Theorem C13_n3_multichunk_refuted :
+  forallb wf_item_n3 wb_doc = true /\ length wb_doc = 1500%nat /\ db_ok db_new /\ dict_nonempty (d_dict db_new) = false /\
+  known_C13_n3 wb_doc db_new = true /\
+  length (den (load_n3 (render_doc wb_doc) db_new)) = 999%nat /\
+  ~ (forall lq, In lq (den (load_n3 (render_doc wb_doc) db_new)) <-> In lq (den db_new) \/ In lq (map lq_of4 (triples_of wb_doc))).
+Proof. exact n3_multichunk_refuted. Qed.
+Print Assumptions C13_n3_multichunk_refuted.
+
+(* further N3 / Turtle classes found while building the correspondence (each outside known_C13_n3) *)
+Theorem C13_n3_literal_refuted :
+  known_C13_n3 wd_doc db_new = false /\ known_C13_n3_literal wd_doc = true /\
+  ~ (forall lq, In lq (den (load_n3 (render_doc wd_doc) db_new)) <-> In lq (den db_new) \/ In lq (map lq_of4 (triples_of wd_doc))).
+Proof. exact n3_literal_refuted. Qed.
+Print Assumptions C13_n3_literal_refuted.
+
+Theorem C13_n3_hash_refuted :
+  known_C13_n3 wf_doc db_new = false /\ known_C13_n3_literal wf_doc = false /\
+  ~ (forall lq, In lq (den (load_n3 (render_doc wf_doc) db_new)) <-> In lq (den db_new) \/ In lq (map lq_of4 (triples_of wf_doc))).
+Proof. exact n3_hash_refuted. Qed.
+Print Assumptions C13_n3_hash_refuted.
+
+Theorem C13_turtle_tagged_refuted :
+  known_C13_ttl_tagged we_doc = true /\
+  ~ (forall lq, In lq (den (load_ttl (render_doc we_doc) db_new)) <-> In lq (den db_new) \/ In lq (map lq_of4 (triples_of we_doc))).
+Proof. exact ttl_tagged_refuted. Qed.
+Print Assumptions C13_turtle_tagged_refuted.
+
+(* non-vacuity: the hypotheses of (2) and (3) hold of a non-trivial document and a populated database *)
+Definition ex_doc : list item :=
+  [IComment [] [32; 99];
+   IStmt P0 (TIri iA) (TIri iB) (TLit [LPlain 116; LEsc 116; LEsc 34; LHex4 [48;48;101;57]; LPlain 60] (SLang [101;110])) None;
+   IBlank [32];
+   IStmt (mkPad [9] [32;32] [9] [32] [] [13]) (TBnode [98;49]) (TIri iB) (TLit [LPlain 53] (SDt iC)) (Some (TIri iE));
+   IStmt P0 (TIri iA) (TIri iB) (TIri iC) (Some (TBnode [103]))].
+Example C13_example_hypotheses :
+  wf_doc_nq ex_doc = true /\ known_C13_reclean ex_doc = false /\ db_ok wa_db /\
+  next_id (d_dict wa_db) + 4 * N.of_nat (length (triples_of ex_doc)) <= QBIT /\
+  length (den (load_nq (render_doc ex_doc) wa_db)) = 4%nat.
+Proof.
+  split; [vm_compute; reflexivity|]. split; [vm_compute; reflexivity|]. split; [exact wa_db_ok|].
+  split; [vm_compute; discriminate | vm_compute; reflexivity].
+Qed.
